@@ -1,4 +1,6 @@
 import GstVerif.Trans.Model
+import GstProofs.Trans.Hermite
+import Mathlib.Algebra.Polynomial.Eval.Defs
 import Mathlib.LinearAlgebra.Matrix.DotProduct
 import Mathlib.Data.Matrix.Mul
 import Mathlib.Tactic.Ring
@@ -15,9 +17,12 @@ import Mathlib.Tactic.Linarith
   the eigenvalues the factors have the identity as covariance (`factors_whitened`);
 * normal scores: the rank is monotone in the value (`rank_monotone`), so any non-decreasing
   quantile function applied to it gives a non-decreasing transform;
-* Hermite polynomials: orthogonality `E[He_m He_n] = n! δ_mn` under the Gaussian law, checked
-  exactly (integer arithmetic on coefficients and Gaussian moments) for all degrees below 12
-  (`hermite_orthogonal_below_12` — a finite table, not the statement for every degree).
+* Hermite polynomials: orthogonality `E[He_m He_n] = n! δ_mn` under the Gaussian law for EVERY pair of
+  degrees (`hermite_orthogonal`, `hermite_table_all`: the coefficient lists of the model are polynomials of
+  `ℤ[X]`, the expectation is the moment functional, Stein's identity and `He_n' = n He_{n-1}` give the
+  result by induction — `GstProofs/Trans/Hermite.lean`); the values computed by the three-term recurrence
+  (the quantity compared with the library) are the values of these polynomials (`hermite_values`);
+  the earlier finite table (`hermite_orthogonal_below_12`, by evaluation) is kept as a cross-check.
 The anamorphosis round trips (numerical inversion) are tied by correspondence only.
 -/
 namespace GstProofs.C18
@@ -62,6 +67,68 @@ theorem rank_monotone (l : List Q) (a b : Q) (h : a ≤ b) : countBelow l a ≤ 
 
 /-- exact orthogonality of the Hermite polynomials of degree < 12 under the Gaussian law -/
 theorem hermite_orthogonal_below_12 : orthoTable 12 = true := by decide +kernel
+
+/-- **orthogonality for every pair of degrees** (statement on the executable definitions of the model) -/
+theorem hermite_orthogonal (m n : Nat) :
+    expect (pmul (hePoly m) (hePoly n)) = if m = n then fact n else 0 := by
+  rw [GstProofs.Trans.expect_eq, GstProofs.Trans.toPoly_pmul]
+  exact GstProofs.Trans.E_H_mul m n
+
+/-- the table is true at every size -/
+theorem hermite_table_all (N : Nat) : orthoTable N = true := by
+  unfold orthoTable
+  simp only [List.all_eq_true, List.mem_range, beq_iff_eq]
+  intro m _ n _
+  exact hermite_orthogonal m n
+
+/-- `He_n` has norm `n!` and is centred for `n ≥ 1` -/
+theorem hermite_norm (n : Nat) : expect (pmul (hePoly n) (hePoly n)) = fact n := by
+  simpa using hermite_orthogonal n n
+
+theorem hermite_centred (n : Nat) : expect (hePoly (n + 1)) = 0 := by
+  have h := hermite_orthogonal (n + 1) 0
+  rw [GstProofs.Trans.expect_eq, GstProofs.Trans.toPoly_pmul] at h
+  rw [GstProofs.Trans.expect_eq]
+  have h0 : GstProofs.Trans.toPoly (hePoly 0) = 1 := GstProofs.Trans.H_zero
+  rw [h0, mul_one] at h
+  simpa using h
+
+/-- the values produced by the recurrence are the values of the polynomials `He_k` at `y` -/
+theorem hermite_values (y : Q) (n : Nat) :
+    (heValues y n).length = n ∧
+    ∀ k, k < n → (heValues y n).getD k 0 = Polynomial.eval₂ (Int.castRingHom ℚ) y (GstProofs.Trans.H k) := by
+  induction n using Nat.strong_induction_on with
+  | _ n ih =>
+    match n with
+    | 0 => exact ⟨rfl, fun k hk => absurd hk (Nat.not_lt_zero k)⟩
+    | 1 =>
+      refine ⟨rfl, fun k hk => ?_⟩
+      have : k = 0 := by omega
+      subst this
+      simp [heValues, GstProofs.Trans.H_zero]
+    | n + 2 =>
+      obtain ⟨hl, hv⟩ := ih (n + 1) (by omega)
+      have hlen : (heValues y (n + 2)).length = n + 2 := by simp [heValues, hl]
+      refine ⟨hlen, fun k hk => ?_⟩
+      by_cases hk' : k < n + 1
+      · have : (heValues y (n + 2)).getD k 0 = (heValues y (n + 1)).getD k 0 := by
+          simp only [heValues, List.getD_eq_getElem?_getD]
+          rw [List.getElem?_append_left (by rw [hl]; exact hk')]
+        rw [this]; exact hv k hk'
+      · have hkn : k = n + 1 := by omega
+        subst hkn
+        have hlast : (heValues y (n + 2)).getD (n + 1) 0 =
+            y * (heValues y (n + 1)).getD n 0 -
+              (n : Q) * (if n = 0 then 0 else (heValues y (n + 1)).getD (n - 1) 0) := by
+          simp only [heValues, List.getD_eq_getElem?_getD]
+          rw [List.getElem?_append_right (by rw [hl])]
+          simp [hl]
+        rw [hlast, hv n (by omega)]
+        cases n with
+        | zero => simp [GstProofs.Trans.H_one, GstProofs.Trans.H_zero]
+        | succ j =>
+          rw [if_neg (by omega), Nat.add_sub_cancel, hv j (by omega), GstProofs.Trans.H_rec j]
+          simp [Polynomial.eval₂_sub, Polynomial.eval₂_mul]
 
 /-- recurrence values agree with the coefficient form (anchor): `He_4(2) = 16 - 24 + 3` -/
 example : (heValues 2 5).getD 4 0 = -5 := by decide +kernel
